@@ -1102,8 +1102,26 @@ fn exec_bseq(w: &[&str], line: &str, ex: &mut Exec) -> String {
         }
     }
     let mut facts = RdFacts::default();
+    // `consume(n)` with more than was lent is a caller error with a documented assertion;
+    // a panic of `fill_buf` / `read` is never acceptable
+    if outs.iter().any(|o| o == "f=panic" || o == "r=panic") {
+        ex.fail("C11:panic", format!("{line}: {}", outs.join(" ")));
+    }
     let state = match r {
-        Some(r) => r.show(&mut facts),
+        Some(r) => match catch(|| {
+            let mut f = RdFacts::default();
+            let s = r.show(&mut f);
+            (s, f)
+        }) {
+            Ok((s, f)) => {
+                facts = f;
+                s
+            }
+            Err(m) => {
+                ex.fail("C11:panic", format!("{line}: reading the reader's state back panicked: {m}"));
+                "dead".into()
+            }
+        },
         None => "dead".into(),
     };
     if let Some(info) = script_info(rspec) {
@@ -1210,7 +1228,17 @@ fn run_wseq(wspec: &str, steps: &[String]) -> WrRun {
     }
     let mut facts = WrFacts::default();
     let state = match w {
-        Some(w) => w.show(&mut facts),
+        Some(w) => match catch(|| {
+            let mut f = WrFacts::default();
+            let s = w.show(&mut f);
+            (s, f)
+        }) {
+            Ok((s, f)) => {
+                facts = f;
+                s
+            }
+            Err(_) => "dead".into(),
+        },
         None => "dead".into(),
     };
     WrRun {
@@ -1441,12 +1469,17 @@ fn exec(case: &Case) -> Exec {
     let mut ex = Exec::new();
     for line in &case.lines {
         let nt = ex.nontrivial;
-        // a panic that escapes the per-call `catch` is a bug of this harness: name the line
+        // a panic that escapes the per-call `catch` (e.g. while the final state of the objects is
+        // read back) still comes out of the code under test: the line's output is `panic` and the
+        // implementation-only monitor fires. (Malformed operation text cannot reach this point
+        // from the generator; harness invariants such as the output count are checked by
+        // `run_harness` and abort.)
         let o = match catch(|| exec_line(line, &mut ex)) {
             Ok(o) => o,
             Err(m) => {
-                eprintln!("harness bug on `{line}`: {m}");
-                std::process::exit(3);
+                ex.fail("C11:panic", format!("{line} => panic: {m}"));
+                ex.tag("res:escaped-panic");
+                "panic".to_string()
             }
         };
         ex.nontrivial |= nt;
